@@ -104,6 +104,22 @@ def install(M):
     M.env['git::refs::get_authorship'] = get_authorship
     M.env['git::refs::get_reference_as_authorship_log_v3'] = get_v3
 
+    def global_args(P, c, args, dt):
+        return VecV([])
+
+    def exec_git(P, c, args, dt):
+        out = P.state.get('porcelain')
+        if out is None:
+            raise Unsupported('exec_git without a harness answer')
+        P.events.append(('exec_git', [bytes(concrete_bytes(as_bytes(a)) or b'?').decode('utf-8', 'replace') for a in elems_of(args[0])]))
+        return ok(Agg('std::process::Output', [Opaque('ExitStatus', 0), VecV([b if isinstance(b, Sc) else Sc(b, 8) for b in out]), VecV([])]))
+
+    def abbrev(P, c, args, dt):
+        return unit()
+    M.env['git::repository::Repository::global_args_for_exec'] = global_args
+    M.env['git::repository::exec_git'] = exec_git
+    M.env['commands::blame::Repository::populate_hunk_abbrev_shas'] = abbrev
+
 
 def plan(tier, seed):
     tasks = []
@@ -128,6 +144,13 @@ def plan(tier, seed):
                         if nh == 2 and o not in (0, 3, 5, 6):
                             continue
                         tasks.append(('overlay', {'sizes': list(sizes), 'notes': list(notes), 'same_commit': same_commit, 'opts': o}))
+    # K4
+    for sizes in ([1], [2], [1, 1], [2, 1], [1, 2], [2, 2], [1, 1, 1]):
+        n = len(sizes)
+        for commits in itertools.product(range(2), repeat=n):
+            if commits[0] != 0:
+                continue
+            tasks.append(('porcelain', {'sizes': sizes, 'commits': list(commits), 'previous': n % 2 == 0, 'boundary': n > 1}))
     return tasks
 
 
@@ -281,7 +304,78 @@ def ob_overlay(h, shape):
     h.sample = h.witness()
 
 
-OBLIGATIONS = {'lookup': ob_lookup, 'overlay': ob_overlay}
+def ob_porcelain(h, shape):
+    """K4: blame_hunks_for_ranges parses `git blame --line-porcelain`: every final line keeps the commit and
+    the ORIGINAL line number git reported for it (the overlay looks the original number up in the note)"""
+    P = h.P
+    M = P.M
+    sizes = shape['sizes']
+    shas = ['aaaa1111', 'bbbb2222', 'cccc3333']
+    LIM = 999
+    groups = []
+    fstart = h.u32('f0', 1, 98)
+    cur = fstart
+    text = []
+    for i, n in enumerate(sizes):
+        sha = shas[shape['commits'][i]]
+        ostart = h.u32('o%d' % i, 1, LIM)
+        groups.append((sha, ostart, cur, n))
+        for j in range(n):
+            o = binop('Add', ostart, Sc(j, 32))
+            f = binop('Add', cur, Sc(j, 32))
+            hdr = list(sha.encode()) + [32] + int_digits(P, o) + [32] + int_digits(P, f) + ([32] + list(str(n).encode()) if j == 0 else []) + [10]
+            text += hdr
+            text += list(b'author A U Thor\nauthor-mail <a@u>\nauthor-time 1700000000\nauthor-tz +0000\ncommitter C\ncommitter-mail <c@u>\ncommitter-time 1700000001\ncommitter-tz +0000\nsummary 12 34 56\n')
+            if shape.get('previous') and i == 0:
+                text += list(b'previous dddd4444 f.rs\n')
+            if shape.get('boundary') and i == len(sizes) - 1:
+                text += list(b'boundary\n')
+            text += list(b'filename f.rs\n\tcontent 1 2 3\n')
+        cur = binop('Add', cur, Sc(n, 32))
+    P.state['porcelain'] = text
+    P.state['notes'] = {}
+    h.inputs_struct = {'groups': [[g[0], g[1], g[2], g[3]] for g in groups], 'previous': bool(shape.get('previous')), 'boundary': bool(shape.get('boundary'))}
+    repo = Agg('git::repository::Repository', [])
+    opts = mk_options(M, False, False, False)
+    total = sum(sizes)
+    rng = VecV([tup(fstart, binop('Add', fstart, Sc(total - 1, 32)))])
+    try:
+        r = P.call_named('commands::blame::Repository::blame_hunks_for_ranges', [Ref(Cell(repo)), pystr('f.rs'), SliceRef(rng, 0, 1), Ref(Cell(opts))])
+    except Panic as e:
+        h.panic('K4-no-panic', e.msg)
+        return
+    h.require(r.var == 'Ok', 'K4-parse-ok', 'blame output of a healthy git was rejected')
+    if r.var != 'Ok':
+        return
+    hunks = r.f[0].e
+    # for every final line of every group: exactly one hunk covers it, with that commit and that original line
+    for (sha, ostart, fs, n) in groups:
+        for j in range(n):
+            f = binop('Add', fs, Sc(j, 32))
+            o = binop('Add', ostart, Sc(j, 32))
+            cover = []
+            right = []
+            for hk in hunks:
+                rg = field(M, hk, HUNK, 'range')
+                og = field(M, hk, HUNK, 'orig_range')
+                inside = z3.And(binop('Le', rg.f[0], f).z(), binop('Le', f, rg.f[1]).z())
+                cover.append(inside)
+                same_sha = bytes(concrete_bytes(as_bytes(field(M, hk, HUNK, 'commit_sha')))).decode() == sha
+                orig_of_f = binop('Add', og.f[0], binop('Sub', f, rg.f[0]))
+                right.append(z3.And(inside, z3.BoolVal(same_sha), binop('Eq', orig_of_f, o).z()))
+            h.require(z3.PbEq([(c, 1) for c in cover], 1) if cover else False, 'K4-each-line-in-exactly-one-hunk', 'a blamed line is covered by no hunk or by several')
+            h.require(z3.Or(right) if right else False, 'K4-line-keeps-commit-and-original-number',
+                      'final line (group %s) is not reported with the commit and original line number git gave' % sha)
+    h.sample = h.witness()
+
+
+def int_digits(P, v):
+    """decimal digits of a symbolic u32 as bytes (shares the formatter model's digit variables)"""
+    from mirsym.models.fmt import int_digits as fmt_digits
+    return list(fmt_digits(P, v, 32, False))
+
+
+OBLIGATIONS = {'lookup': ob_lookup, 'overlay': ob_overlay, 'porcelain': ob_porcelain}
 
 
 def _concrete_expected(desc, file, line):
